@@ -248,7 +248,7 @@ VerdictFlags(o, m, x) ==
        \cup (IF ex.step = "noop" THEN {} ELSE
                  Flag("C20_Code", x.code = ex.code)
             \cup Flag("C04_ReplyAttribution", x.code = ex.code)
-            \cup Flag("C20_Temporary", x.temp = ex.temp)
+            \cup Flag("C20_Temporary", x.temp = ex.temp /\ x.temp2 = ex.temp)   \* SendError.IsTemp and Msg.SendErrorIsTemp
             \cup Flag("C20_EnhancedCode", x.esc = ex.esc)))
 
 ObserveEnd(o, e) ==
@@ -265,6 +265,10 @@ ObserveEnd(o, e) ==
      \cup UNION {VerdictFlags(o, m, r.msgs[m]) : m \in M}
      \cup Flag("C20_OneEntryPerFailedMessage",
                (r.top = "" /\ \A m \in M : Judged(o, m)) => r.nerrs = Cardinality(failed))
+     \* ... and every entry names its message (SendError.Msg): the entries are the failed messages, each once
+     \cup Flag("C20_EntriesNameFailedMessages",
+               (r.top = "" /\ \A m \in M : Judged(o, m)) => (Rng(r.entries) = failed /\ Len(r.entries) = Cardinality(failed)
+                                                              /\ \A m \in failed : r.msgs[m].ownmsg))
      \cup Flag("C20_ErrIffAnyFailed", (r.top = "" /\ r.op = "Send") => (r.err <=> failed # {}))
      \* a message of the batch that was not delivered is a failed message: it carries an error (and so has its
      \* entry in the joined error) - unless the whole call failed before any message was tried (r.top)
